@@ -302,11 +302,11 @@ type ReplayFile struct {
 	Observed string          `json:"observed"`
 }
 
-func writeReplay(check string, raw []byte, observed string) string {
+func writeReplay(test, check string, raw []byte, observed string) string {
 	dir := filepath.Join(Root(), "replays", ID())
 	_ = os.MkdirAll(dir, 0o755)
 	i, _ := Shard()
-	path := filepath.Join(dir, fmt.Sprintf("%s-%s-s%d-sh%d.json", check, Tier(), Seed(), i))
+	path := filepath.Join(dir, fmt.Sprintf("%s-%s-%s-s%d-sh%d.json", check, strings.ReplaceAll(test, "/", "_"), Tier(), Seed(), i))
 	rf := ReplayFile{Property: ID(), Check: check, Tier: Tier(), Seed: Seed(), Case: raw, Observed: observed}
 	b, _ := json.MarshalIndent(rf, "", " ")
 	_ = os.WriteFile(path, b, 0o644)
@@ -332,7 +332,7 @@ func (c *Check[C]) Eval(t testing.TB, v C) bool {
 	r := c.safeRun(v)
 	record(c.Name, raw, r)
 	if r.Err != nil {
-		p := writeReplay(c.Name, raw, r.Err.Error())
+		p := writeReplay(t.Name(), c.Name, raw, r.Err.Error())
 		noteFailure(p)
 		t.Errorf("VIOLATION-FILE %s\ncheck %s: %v\ncase: %s", p, c.Name, r.Err, trunc(raw))
 		return false
@@ -347,7 +347,7 @@ func (c *Check[C]) EvalFast(t testing.TB, v C) bool {
 	record(c.Name, nil, r)
 	if r.Err != nil {
 		raw, _ := json.Marshal(v)
-		p := writeReplay(c.Name, raw, r.Err.Error())
+		p := writeReplay(t.Name(), c.Name, raw, r.Err.Error())
 		noteFailure(p)
 		t.Errorf("VIOLATION-FILE %s\ncheck %s: %v\ncase: %s", p, c.Name, r.Err, trunc(raw))
 		return false
@@ -387,7 +387,7 @@ func (c *Check[C]) Rapid(t *testing.T, n int) {
 		}
 		if r.Err != nil {
 			failed = true // from here on rapid is shrinking: do not count
-			p := writeReplay(c.Name, raw, r.Err.Error())
+			p := writeReplay(t.Name(), c.Name, raw, r.Err.Error())
 			noteFailure(p)
 			rt.Fatalf("VIOLATION-FILE %s\ncheck %s: %v\ncase: %s", p, c.Name, r.Err, trunc(raw))
 		}
@@ -582,7 +582,11 @@ func flush(code int) {
 		}
 		_ = os.WriteFile(filepath.Join(dir, fmt.Sprintf("%s.%d.%s.hashes", ID(), i, k)), buf, 0o644)
 	}
-	b, _ := json.Marshal(out)
+	b, err := json.Marshal(out)
+	if err != nil {
+		fmt.Println("harness: cannot serialise shard result:", err)
+		return
+	}
 	_ = os.WriteFile(filepath.Join(dir, fmt.Sprintf("%s.%d.json", ID(), i)), b, 0o644)
 }
 
@@ -615,7 +619,7 @@ func replayOne(t *testing.T, path string, verbose bool) {
 	if err != nil {
 		t.Fatalf("%s: cannot decode case: %v", path, err)
 	}
-	record("regress", append([]byte(rf.Check+":"), rf.Case...), Result{NonTrivial: true, Labels: []string{"regress:" + rf.Check}})
+	record("regress", rf.Case, Result{NonTrivial: true, Labels: []string{"regress:" + rf.Check}})
 	if r.Err != nil {
 		noteFailure(path)
 		t.Errorf("VIOLATION-FILE %s\ncheck %s: %v", path, rf.Check, r.Err)
